@@ -159,6 +159,7 @@ def run(tier, replay):
         cases.append({"id": 0, "nfiles": 130, "lines": [rng.choice([2, 3, 5]) for _ in range(130)], "limit": 130, "sched": [], "free": True, "model_counted": -1})
         for c in cases:
             c["nofinalnl"] = rng.random() < 0.4
+            c["broken"] = bool(c.get("free")) and not c.get("interim") and rng.random() < 0.6
         for i, c in enumerate(cases):
             c["id"] = i + 1
         cj, oj = os.path.join(wd, "cases.json"), os.path.join(wd, "out.json")
